@@ -1,14 +1,18 @@
 #!/bin/sh
-# tools/mut.sh <patch.diff> <check-id> [tier]  -- apply a patch to /repo, run the check, undo the patch.
-# Prints the check's tail and "MUT-RESULT <patch> <id> exit=<n>".
+# tools/mut.sh <patch.diff> <check-id> [tier]
+# Runs a check against /repo + patch WITHOUT touching /repo: the patch is applied to a scratch clone of /repo's HEAD
+# (outside /repo and /verif, removed afterwards) and the check is pointed at it through VERIF_REPO.
+# Prints the verdict lines and "MUT-RESULT <patch> <id> exit=<n>".  Replays written by mutant runs are not evidence.
 p=$(readlink -f "$1"); id=$2; tier=${3:-quick}
-cd /repo || exit 2
-git diff --quiet || { echo "/repo has uncommitted changes"; exit 2; }
-git apply "$p" || { echo "patch does not apply: $p"; exit 2; }
+scratch=$(mktemp -d /tmp/verif-mut-XXXXXX)
+trap 'rm -rf "$scratch"' EXIT INT TERM
+git clone -q /repo "$scratch/repo" || exit 2
+# generated autotools files are not tracked: take them from /repo so that no bootstrap is needed
+rsync -a --exclude .git --exclude '*.o' --exclude '*.lo' --exclude '*.la' --exclude .libs --exclude .deps --ignore-existing /repo/ "$scratch/repo/"
+git -C "$scratch/repo" apply "$p" || { echo "patch does not apply: $p"; exit 2; }
 cd /verif
-./check "$id" "$tier" > /tmp/mut.$$.log 2>&1; rc=$?
-git -C /repo checkout -- . 
-grep -E "^(VIOLATION|KNOWN-FINDING|  what|C[0-9]+ (quick|thorough))" /tmp/mut.$$.log | cut -c1-300 | head -8
-rm -f /tmp/mut.$$.log
-# replays produced by mutant runs are not evidence about the real tree
+ev=/verif/evidence/$id.json; [ -f "$ev" ] && cp "$ev" "$scratch/ev.json"
+VERIF_REPO="$scratch/repo" ./check "$id" "$tier" > "$scratch/log" 2>&1; rc=$?
+[ -f "$scratch/ev.json" ] && cp "$scratch/ev.json" "$ev"      # evidence must come from runs against /repo itself
+grep -E "^(VIOLATION|KNOWN-FINDING|  what|INFRA|C[0-9]+ (quick|thorough))" "$scratch/log" | cut -c1-300 | head -8
 echo "MUT-RESULT $(basename $(dirname $p))/$(basename $p) $id exit=$rc"
